@@ -20,15 +20,34 @@ var mdAtoms = []string{
 	"世界", "e\u0301", "\u200b", "\uff57", "👍", "\xff", "&lt", "&;", "`|`", "a b",
 }
 
+// Text that some *other* layer would interpret if the renderer ever handed
+// cell content to it: printf verbs (content used as a format string), template
+// actions, regexp / os.Expand references, Go / URL / numeric-entity escapes in
+// source form, and white space other than U+0020 (which the property's trim
+// must keep: only U+0020 is padding) or runs of it (collapsing).  Every one of
+// them is placed in every field position, like the atoms above.
+var mdMetaAtoms = []string{
+	"%", "100%", "50% off", "%d", "%s", "%v", "%%", "%!", "%!d(MISSING)", "a%", "%|", "|%", "%\n", "5 %d 7",
+	"%[1]s", "%-5d", "%+v", "%#v", "% x", "%5", "%.", "%*d", `%\`, "%&", "%<", "%%%",
+	"{{.}}", "{{", "$1", "${1}", "$$", "$", `\n`, `\t`, `\x7c`, `\u007c`, `\174`, "%7C", "%0A", "&#37;", "&#x25;", "&percnt;",
+	"\ta\t", "\t", "\u00a0a\u00a0", "\u3000", "a  b", " a  b ", "\v", "\f", "\x00", "a\x00b", "aB", "ß",
+}
+
 func mdText(r *RNG) ItemSpec {
 	switch p := r.Intn(100); {
-	case p < 50:
+	case p < 40:
 		return Str(pick(r, mdAtoms))
+	case p < 52:
+		return Str(pick(r, mdMetaAtoms))
 	case p < 75:
 		n := 2 + r.Intn(2)
 		s := ""
 		for i := 0; i < n; i++ {
-			s += pick(r, mdAtoms)
+			if r.Pct(25) {
+				s += pick(r, mdMetaAtoms)
+			} else {
+				s += pick(r, mdAtoms)
+			}
 		}
 		return Str(s)
 	case p < 77:
@@ -38,7 +57,7 @@ func mdText(r *RNG) ItemSpec {
 	default:
 		n := r.Intn(9)
 		b := make([]byte, n)
-		alpha := []byte{'|', '\\', '&', '<', '>', '"', '\'', '\n', ' ', ' ', 'a', 'b', ';', '#', 'x', '7', 'c', '-', ':', 0xc3, 0xa9, 0}
+		alpha := []byte{'|', '\\', '&', '<', '>', '"', '\'', '\n', ' ', ' ', 'a', 'b', ';', '#', 'x', '7', 'c', '-', ':', 0xc3, 0xa9, 0, '%', '%', 'd', 's', '!', '$', '{', '\t'}
 		for i := range b {
 			b[i] = alpha[r.Intn(len(alpha))]
 		}
@@ -282,6 +301,58 @@ func randAlign(r *RNG, maxCol int) map[int]int {
 	return m
 }
 
+// mdSpec is a table spec plus rows that the shared builder cannot express:
+// rows of no cells made as a ZERO VALUE (new(tabular.Row), &tabular.Row{},
+// a declared variable) and handed to AddRow, before the build proper
+// (ZeroFirst) and after it (ZeroLast).  Their Cells() is a nil slice where a
+// row from NewRow / AppendNewRow / AddRowItems() has an empty non-nil one; they
+// are not separators, so each must come out as a line of padding columns.
+// (DESIGN 13.10 leaves zero-value literals outside the theorems' domain; the
+// expectation here is positional - computed from the spec, never asked of the
+// library.)  ZeroFirst is ignored when the spec has mutations (those address
+// rows by their position in the table).
+type mdSpec struct {
+	TableSpec
+	ZeroFirst int `json:"zero_first,omitempty"`
+	ZeroLast  int `json:"zero_last,omitempty"`
+}
+
+func (ms mdSpec) zeroFirst() int {
+	if len(ms.Mutations) > 0 {
+		return 0
+	}
+	return ms.ZeroFirst
+}
+
+func addZeroValueRows(t tabular.Table, n int) {
+	for k := 0; k < n; k++ {
+		switch k % 3 {
+		case 0:
+			t.AddRow(new(tabular.Row))
+		case 1:
+			t.AddRow(&tabular.Row{})
+		default:
+			var row tabular.Row
+			t.AddRow(&row)
+		}
+	}
+}
+
+// view from the spec alone, the zero-value rows at their positions
+func (ms mdSpec) view() View {
+	v := ms.TableSpec.SpecView()
+	var rows []*[]VCell
+	for k := 0; k < ms.zeroFirst(); k++ {
+		rows = append(rows, &[]VCell{})
+	}
+	rows = append(rows, v.Rows...)
+	for k := 0; k < ms.ZeroLast; k++ {
+		rows = append(rows, &[]VCell{})
+	}
+	v.Rows = rows
+	return v
+}
+
 func init() {
 	register(&Prop{
 		ID:       "C08",
@@ -289,18 +360,36 @@ func init() {
 		CaseType: "((view * list (list N * nat)) * res (list N))",
 		CaseFn:   "C08_case",
 		ModelFn:  "C08_model",
-		Rule: "tables built through the public API (AddHeaders / AddRowItems / NewRow+Add+AddRow / AppendNewRow+Add / NewRowSizedFor / AddSeparator), rendered by markdown.Wrap(t).Render(); " +
+		Rule: "tables built through the public API (AddHeaders / AddRowItems / NewRow+Add+AddRow / AppendNewRow+Add / NewRowSizedFor / AddSeparator, plus the shared enrichments: second header, staged renders through one wrapper, property histories, mutations, write faults), rendered by markdown.Wrap(t).Render(); the expected view is computed from the spec, never read back from the table; " +
+			"zero-value rows (new(tabular.Row), &tabular.Row{}) added with AddRow before and after the build in about one table in six and in every first/last pattern of three small tables (outside DESIGN 13.10's domain, judged positionally: a line of padding columns each); " +
+			"texts additionally from an alphabet of strings another layer would interpret (printf verbs, template actions, $-references, escapes in source form, URL/numeric entities) and of white space other than U+0020, each in every field position; " +
 			"every shape with header in {none,0,1,2 cells} and up to 3 rows over {separator,0,1,2 cells} with texts from a pipe/backslash/entity/LF/space/wide-character alphabet and a random alignment assignment; " +
 			"every alignment assignment {unset,L,R,C} on column 0 and each column of four fixed hostile grids with <= 2 columns; every atom of the alphabet in first/last/padded position; random tables to 6x6 with random alignments; " +
 			"a case is non-trivial when the table has a column and a header (rendering is attempted); distinct = distinct (view, outcome, output)",
-		Exhaustive: "shapes (header x row-sequence up to length 3); all 4^(ncols+1) alignment assignments on four fixed grids with 1 and 2 columns; every alphabet atom in 3 field positions",
+		Exhaustive: "shapes (header x row-sequence up to length 3); all 4^(ncols+1) alignment assignments on four fixed grids with 1 and 2 columns; every alphabet atom (hostile and interpretable) in 7 field positions; zero-value rows in all 8 first/last count patterns of 3 small tables",
 		Gen: func(r *RNG, tier string) []json.RawMessage {
 			// NewRNG(seed) starts seed k at seed 1's state advanced by k-1 steps, so
 			// the streams of different seeds re-synchronise after a few cases and
 			// then generate the same list; restart from a hashed state instead
 			r = &RNG{s: r.U64()}
 			var out []json.RawMessage
-			add := func(ts TableSpec) { out = append(out, mustJSON(ts)) }
+			addM := func(ms mdSpec) { out = append(out, mustJSON(ms)) }
+			// a zero-value row before and/or after about one table in six
+			zeros := func(ts TableSpec) mdSpec {
+				ms := mdSpec{TableSpec: ts}
+				if r.Pct(16) {
+					switch r.Intn(3) {
+					case 0:
+						ms.ZeroFirst = 1 + r.Intn(2)
+					case 1:
+						ms.ZeroLast = 1 + r.Intn(2)
+					default:
+						ms.ZeroFirst, ms.ZeroLast = 1, 1
+					}
+				}
+				return ms
+			}
+			add := func(ts TableSpec) { addM(zeros(ts)) }
 			hows := []int{0, 0, 1, 2, 3}
 			maxRows := 3
 			if tier == "thorough" {
@@ -340,14 +429,27 @@ func init() {
 					add(ts)
 				}
 			}
-			// every atom in each field position
-			for _, s := range mdAtoms {
+			// every atom in each field position: header (first, middle, last), body
+			// first / middle / last, last cell of a short row (followed by padding)
+			for _, s := range append(append([]string{}, mdAtoms...), mdMetaAtoms...) {
 				h := []ItemSpec{Str("h1"), Str(s), Str("h3")}
-				add(TableSpec{Header: &h, Rows: []RowSpec{
+				addM(mdSpec{TableSpec: TableSpec{Header: &h, Rows: []RowSpec{
 					{Cells: []ItemSpec{Str(s), Str("m"), Str("z")}},
 					{Cells: []ItemSpec{Str("a"), Str(s)}},
 					{Cells: []ItemSpec{Str("a"), Str("m"), Str(s)}}},
-					Align: randAlign(r, 3)})
+					Align: randAlign(r, 3)}})
+				h2 := []ItemSpec{Str(s), Str("h2"), Str(s)}
+				addM(mdSpec{TableSpec: TableSpec{Header: &h2, Rows: []RowSpec{
+					{Cells: []ItemSpec{Str("a"), Str(s), Str("z")}},
+					{Cells: []ItemSpec{Str(s)}}},
+					Align: randAlign(r, 3)}})
+			}
+			// zero-value rows at every position pattern of a small table
+			for code := 1; code < 9; code++ {
+				h := []ItemSpec{Str("h1"), Str("h2")}
+				for _, rows := range [][]RowSpec{nil, {{Cells: []ItemSpec{Str("a"), Str("b")}}}, {{Sep: true}, {Cells: []ItemSpec{}}, {Cells: []ItemSpec{Str("a")}}}} {
+					addM(mdSpec{TableSpec: TableSpec{Header: &h, Rows: rows, HeaderAt: len(rows) * (code % 2)}, ZeroFirst: code % 3, ZeroLast: code / 3})
+				}
 			}
 			n := 300
 			if tier == "thorough" {
@@ -364,19 +466,31 @@ func init() {
 			return out
 		},
 		Run: func(spec json.RawMessage) CaseOut {
-			var ts TableSpec
-			if err := json.Unmarshal(spec, &ts); err != nil {
+			var ms mdSpec
+			if err := json.Unmarshal(spec, &ms); err != nil {
 				panic(err)
 			}
+			ts := ms.TableSpec
 			t := tabular.New()
-			o := ts.BuildRenderW(t, func(t tabular.Table) RenderW { return markdown.Wrap(t) })
-			v := ts.SpecView() // judged against what was put in, not what the table now holds
+			addZeroValueRows(t, ms.zeroFirst())
+			// BuildRenderW makes the wrapper after the build unless earlier renders
+			// are part of the history; the trailing zero-value rows join the table
+			// there, between build and render.  With a history the shared builder
+			// offers no such point: they are left out (of the table and the view).
+			if len(ts.Stages) > 0 || len(ts.Mutations) > 0 || ts.StageFaults {
+				ms.ZeroLast = 0
+			}
+			o := ts.BuildRenderW(t, func(t tabular.Table) RenderW {
+				addZeroValueRows(t, ms.ZeroLast)
+				return markdown.Wrap(t)
+			})
+			v := ms.view() // judged against what was put in, not what the table now holds
 			vc := mdViewCoq(v)
 			return CaseOut{
 				Coq:        cqPair(cqPair(vc, mdWidthTable(v)), o.Coq()),
 				Desc:       mdDesc{Outcome: o, Sig: mdSig(v, o)},
-				Size:       ts.Size(),
-				Tags:       append(append(shapeTags(v), mdTextTags(v)...), "outcome="+o.Kind),
+				Size:       ts.Size() + 2*(ms.ZeroFirst+ms.ZeroLast),
+				Tags:       append(append(append(shapeTags(v), mdTextTags(v)...), mdZeroTags(ms)...), "outcome="+o.Kind),
 				Key:        vc + o.Kind + string(o.Out),
 				Nontrivial: v.NCols > 0 && v.Header != nil,
 			}
@@ -387,7 +501,42 @@ func init() {
 
 // mdShrink: the shared one-step reductions, plus replacing one text (or all
 // texts) by "x", which the shared shrinker (halving) reaches only slowly
+func mdZeroTags(ms mdSpec) []string {
+	var out []string
+	if ms.zeroFirst() > 0 {
+		out = append(out, "zero-value-row:first")
+	}
+	if ms.ZeroLast > 0 {
+		out = append(out, "zero-value-row:last")
+	}
+	return out
+}
+
+// mdShrink shrinks the table part and keeps the zero-value rows, and proposes
+// dropping those one at a time.
 func mdShrink(spec json.RawMessage) []json.RawMessage {
+	var ms mdSpec
+	if err := json.Unmarshal(spec, &ms); err != nil {
+		return nil
+	}
+	var out []json.RawMessage
+	for _, c := range mdShrinkTable(mustJSON(ms.TableSpec)) {
+		var ts TableSpec
+		if err := json.Unmarshal(c, &ts); err != nil {
+			continue
+		}
+		out = append(out, mustJSON(mdSpec{TableSpec: ts, ZeroFirst: ms.ZeroFirst, ZeroLast: ms.ZeroLast}))
+	}
+	if ms.ZeroFirst > 0 {
+		out = append(out, mustJSON(mdSpec{TableSpec: ms.TableSpec, ZeroFirst: ms.ZeroFirst - 1, ZeroLast: ms.ZeroLast}))
+	}
+	if ms.ZeroLast > 0 {
+		out = append(out, mustJSON(mdSpec{TableSpec: ms.TableSpec, ZeroFirst: ms.ZeroFirst, ZeroLast: ms.ZeroLast - 1}))
+	}
+	return out
+}
+
+func mdShrinkTable(spec json.RawMessage) []json.RawMessage {
 	out := shrinkTableJSON(spec)
 	var ts TableSpec
 	if err := json.Unmarshal(spec, &ts); err != nil {
